@@ -1,14 +1,14 @@
 (* Declarative side of C17 (independent of the dispatch in SecureModel.v; no proofs in this file).
 
    - [sec_at v x]: x is the value of an EXPORTED field tagged coerce:"secure" that can be reached in v
-     through structs (exported, not secure-tagged fields), pointers, slices, map values and interface
-     values.  Arrays and unexported fields are not crossed: both are documented exclusions of clone.Secure
-     ("It does not handle arrays", "private fields are not handled").
+     through structs (exported, not secure-tagged fields; embedded structs / *structs of unexported types,
+     whose fields are promoted), pointers, slices, map values and interface values.  Arrays and ordinary
+     unexported fields are not crossed: both are documented exclusions of clone.Secure ("It does not
+     handle arrays", "private fields are not handled").
    - [hidden x]: x is "[secret hidden]" or the zero value of its type.
-   - [erase v]: v with the value of every such field (and of every unexported field) replaced by a fixed
-     placeholder; everything else - shape, field metadata, map keys, nil-ness, untagged leaves, whole
-     arrays - kept.  [erase v' = erase v] says v' differs from v at most inside secure-tagged (or
-     unexported) fields.
+   - [erase v]: v with the value of every such field replaced by a fixed placeholder; everything else -
+     shape, field metadata, map keys, nil-ness, untagged leaves, unexported fields, whole arrays - kept.
+     [erase v' = erase v] says v' differs from v at most inside exposed secure-tagged fields.
    - [scrub]: the one-screen functional specification of what clone.Secure is supposed to compute. *)
 From Coercion.Secure Require Import GoVal.
 
@@ -17,6 +17,12 @@ Inductive sec_at : gv -> gv -> Prop :=
     In (m, x) fs -> f_exported m = true -> has_secure (f_tag m) = true -> sec_at (VStruct fs) x
 | SA_field : forall fs m x y,
     In (m, x) fs -> f_exported m = true -> has_secure (f_tag m) = false -> sec_at x y -> sec_at (VStruct fs) y
+| SA_embed : forall fs m x y,           (* embedded struct of an unexported type: its fields are promoted *)
+    In (m, x) fs -> f_exported m = false -> f_embedded m = true -> kind_of x = KStruct ->
+    sec_at x y -> sec_at (VStruct fs) y
+| SA_embed_ptr : forall fs m x y,       (* embedded non-nil *struct of an unexported type *)
+    In (m, VPtr (Some x)) fs -> f_exported m = false -> f_embedded m = true -> kind_of x = KStruct ->
+    sec_at x y -> sec_at (VStruct fs) y
 | SA_ptr : forall x y, sec_at x y -> sec_at (VPtr (Some x)) y
 | SA_slice : forall l x y, In x l -> sec_at x y -> sec_at (VSlice (Some l)) y
 | SA_map : forall l k x y, In (k, x) l -> sec_at x y -> sec_at (VMap (Some l)) y
@@ -34,7 +40,15 @@ Fixpoint erase (v : gv) : gv :=
   | VStr _ | VNum _ | VBool _ | VTime _ => v
   | VStruct fs =>
       VStruct (map (fun p => (fst p,
-                              if negb (f_exported (fst p)) || has_secure (f_tag (fst p)) then placeholder
+                              if negb (f_exported (fst p)) then
+                                (if f_embedded (fst p) then
+                                   match snd p with
+                                   | VStruct _ | VTime _ => erase (snd p)
+                                   | VPtr (Some y) => match kind_of y with KStruct => VPtr (Some (erase y)) | _ => snd p end
+                                   | _ => snd p
+                                   end
+                                 else snd p)
+                              else if has_secure (f_tag (fst p)) then placeholder
                               else erase (snd p))) fs)
   | VPtr o => VPtr (match o with None => None | Some x => Some (erase x) end)
   | VSlice o => VSlice (match o with None => None | Some l => Some (map erase l) end)
@@ -46,20 +60,25 @@ Fixpoint erase (v : gv) : gv :=
 (* "[secret hidden]" for a string, the zero value for everything else *)
 Definition hide (x : gv) : gv := match x with VStr _ => VStr hidden_str | _ => zero x end.
 
-(* [copied]: v is a struct that the code had to copy (element of a slice, map value, dynamic value of an
-   interface); the copy keeps exported fields only, so unexported fields come back zero *)
-Fixpoint scrub (copied : bool) (v : gv) : gv :=
+Fixpoint scrub (v : gv) : gv :=
   match v with
   | VStr _ | VNum _ | VBool _ | VTime _ => v
   | VStruct fs =>
       VStruct (map (fun p => (fst p,
-                              if negb (f_exported (fst p)) then (if copied then zero (snd p) else snd p)
+                              if negb (f_exported (fst p)) then
+                                (if f_embedded (fst p) then
+                                   match snd p with
+                                   | VStruct _ | VTime _ => scrub (snd p)
+                                   | VPtr (Some y) => match kind_of y with KStruct => VPtr (Some (scrub y)) | _ => snd p end
+                                   | _ => snd p
+                                   end
+                                 else snd p)
                               else if has_secure (f_tag (fst p)) then hide (snd p)
-                              else scrub false (snd p))) fs)
-  | VPtr o => VPtr (match o with None => None | Some x => Some (scrub false x) end)
-  | VSlice o => VSlice (match o with None => None | Some l => Some (map (scrub true) l) end)
-  | VMap o => VMap (match o with None => None | Some l => Some (map_snd (scrub true) l) end)
-  | VIface o => VIface (match o with None => None | Some x => Some (scrub true x) end)
+                              else scrub (snd p))) fs)
+  | VPtr o => VPtr (match o with None => None | Some x => Some (scrub x) end)
+  | VSlice o => VSlice (match o with None => None | Some l => Some (map scrub l) end)
+  | VMap o => VMap (match o with None => None | Some l => Some (map_snd scrub l) end)
+  | VIface o => VIface (match o with None => None | Some x => Some (scrub x) end)
   | VArray _ => v
   end.
 
@@ -70,7 +89,14 @@ Fixpoint scrubbedb (v : gv) : bool :=
   match v with
   | VStr _ | VNum _ | VBool _ | VTime _ => true
   | VStruct fs =>
-      forallb (fun p => if negb (f_exported (fst p)) then true
+      forallb (fun p => if negb (f_exported (fst p)) then
+                          (if f_embedded (fst p) then
+                             match snd p with
+                             | VStruct _ | VTime _ => scrubbedb (snd p)
+                             | VPtr (Some y) => match kind_of y with KStruct => scrubbedb y | _ => true end
+                             | _ => true
+                             end
+                           else true)
                         else if has_secure (f_tag (fst p)) then hiddenb (snd p)
                         else scrubbedb (snd p)) fs
   | VPtr o => match o with None => true | Some x => scrubbedb x end
@@ -80,14 +106,3 @@ Fixpoint scrubbedb (v : gv) : bool :=
   | VArray _ => true
   end.
 
-(* every field of every struct exported (what reflect.StructOf builds); then [scrub true = scrub false] *)
-Fixpoint all_exported (v : gv) : bool :=
-  match v with
-  | VStr _ | VNum _ | VBool _ | VTime _ => true
-  | VStruct fs => forallb (fun p => f_exported (fst p) && all_exported (snd p)) fs
-  | VPtr o => match o with None => true | Some x => all_exported x end
-  | VSlice o => match o with None => true | Some l => forallb all_exported l end
-  | VMap o => match o with None => true | Some l => forallb (fun p => all_exported (snd p)) l end
-  | VIface o => match o with None => true | Some x => all_exported x end
-  | VArray l => forallb all_exported l
-  end.
